@@ -1232,7 +1232,16 @@ def np_interp(it, a, k):
     right = k.get('right')
     if left is not None or right is not None:
         return it.engine.interp_model(it, x, xp, fp, left, right)
-    f = obj_fun('interp', xp, fp)
+    lin = getattr(xp, '_linspace', None)
+    if lin is not None:
+        # a regular grid is determined by its end points and size: two grids built from the same three terms give the
+        # same interpolating function of fp (so a specification can name "the table laid over [a, b]")
+        key = ('interp-lin', id(fp)) + tuple(t if isinstance(t, int) else z3.simplify(t).get_id() for t in lin)
+        if key not in _OBJ_FUNS:
+            _OBJ_FUNS[key] = ((xp, fp), fresh_fun('interp', R, R))
+        f = _OBJ_FUNS[key][1]
+    else:
+        f = obj_fun('interp', xp, fp)
     return it.ops.map1(lambda v: SV(f(term(v, True))), as_vec(it, x) if isinstance(x, (list, tuple)) else x)
 
 
@@ -1268,7 +1277,9 @@ def np_linspace(it, a, k):
     def fn(i):
         step = it.ops.binop('Div', it.ops.binop('Sub', stop, start), it.ops.binop('Sub', num if isinstance(num, int) else SV(num), 1))
         return it.ops.binop('Add', start, it.ops.binop('Mult', i if isinstance(i, int) else SV(i), step))
-    return Vec(num, fn)
+    v = Vec(num, fn)
+    v._linspace = (term(start, True), term(stop, True), num)
+    return v
 
 
 def np_errstate(it, a, k):
